@@ -7,7 +7,11 @@ use vreplay::*;
 static SEQ: AtomicUsize = AtomicUsize::new(0);
 thread_local! { static SEEN: std::cell::Cell<u64> = std::cell::Cell::new(0); }
 
+static DROPS: AtomicU64 = AtomicU64::new(0);
 struct TagRec(u64);
+impl Drop for TagRec {
+    fn drop(&mut self) { DROPS.fetch_add(1, SeqCst); }
+}
 impl Recorder for TagRec {
     fn describe_counter(&self, _: KeyName, _: Option<Unit>, _: SharedString) { SEEN.with(|s| s.set(self.0)); }
     fn describe_gauge(&self, _: KeyName, _: Option<Unit>, _: SharedString) {}
@@ -33,7 +37,7 @@ fn main() {
             if role.starts_with("installer") {
                 match metrics::set_global_recorder(TagRec(tag)) {
                     Ok(()) => inst.lock().unwrap().push((tid, true, tag, tag)),
-                    Err(e) => { let back = e.into_inner(); inst.lock().unwrap().push((tid, false, tag, back.0)); }
+                    Err(e) => { let back = e.into_inner(); inst.lock().unwrap().push((tid, false, tag, back.0)); std::mem::forget(back); }
                 }
             } else {
                 // start = first instrumented access of the emission; the hook orders it
@@ -64,6 +68,10 @@ fn main() {
     metrics::with_recorder(|r| r.describe_counter(KeyName::from_const_str("m"), None, SharedString::const_str("d")));
     let late = SEEN.with(|s| s.get());
     if emit.iter().any(|e| e.1 != 0) && late != winner && !v.contains(&"once_seen_always_seen") { v.push("once_seen_always_seen"); }
+    // the rejected recorders were forgotten by the callers above and the installed one lives on: any Drop was run by the library
+    let drops = DROPS.load(SeqCst);
+    println!("recorders finalised by the library: {}", drops);
+    if drops != 0 { v.push("no_recorder_dropped_by_the_library"); }
     if panicked { v.push("no_panic"); }
     finish(&v, &plan)
 }
